@@ -47,6 +47,31 @@ Fixpoint str_decode (l : list tok) (c : nat) : option (option (tok * nat)) :=
       end
   end.
 
+(* The same machine for any token width: &Graphemes (text.rs:806-870) has byte-offset cursors too, its tokens are
+   extended grapheme clusters and the width of a token is the byte length of the cluster (which clusters a string
+   has is unicode-segmentation's business, not modelled) *)
+Section Width.
+Variable w : tok -> nat.
+Fixpoint w_off (l : list tok) (i : nat) : nat :=
+  match i, l with
+  | S j, t :: r => w t + w_off r j
+  | _, _ => 0
+  end.
+Fixpoint w_decode (l : list tok) (c : nat) : option (option (tok * nat)) :=
+  match l with
+  | [] => match c with 0 => Some None | _ => None end
+  | t :: r =>
+      match c with
+      | 0 => Some (Some (t, w t))
+      | _ => if Nat.ltb c (w t) then None
+             else match w_decode r (c - w t) with
+                  | Some (Some (u, c')) => Some (Some (u, w t + c'))
+                  | x => x
+                  end
+      end
+  end.
+End Width.
+
 (* ---------- Stream: tokens pulled from an iterator in batches and cached (stream.rs:110-128) ---------- *)
 Record stream := mkStream { s_cache : list tok; s_rest : list tok; s_pulled : nat }.
 Definition stream_init (l : list tok) : stream := mkStream [] l 0.
